@@ -39,6 +39,10 @@ UT = "src/pyhf/infer/utils.py"
 MLE = "src/pyhf/infer/mle.py"
 
 
+# R2-R6 recognise the helper structure of the pinned tree; R7 decides the same clauses end to end (see Ctx.defer)
+DEFER = [(["C06.R2", "C06.R3", "C06.R4", "C06.R5", "C06.R6"], ["C06.R7"])]
+
+
 def _externals(record):
     def fixed_poi_fit(args, kw):
         record.setdefault("fixed_poi_fit", []).append((args, kw))
@@ -133,7 +137,7 @@ def run(ctx):
                 else:
                     ctx.violated(r2, f, r, f"{caller} does not return the helper's value unchanged", node=r)
 
-    r7 = ctx.rule("C06.R7", "END-TO-END/HISTORY: qmu, qmu_tilde, tmu, tmu_tilde and q0 interpreted with every function of test_statistics.py walked and recording fits, three calls in one process (other mu and data; the same data list refilled in place), fitted POI above and below the threshold: statistic = [one-sided zeroing of this statistic](max(0, 2NLL(tested mu, conditional fit) - 2NLL(free fit))) from THIS call's two fits, which receive this call's data, model, start values, bounds and fixed flags; q0 tests 0 whatever mu it is handed; the fitted parameters returned are this call's", "E2E", floor=5)
+    r7 = ctx.rule("C06.R7", "END-TO-END/HISTORY: qmu, qmu_tilde, tmu, tmu_tilde and q0 interpreted with every function of test_statistics.py walked and recording fits, four calls in one process (other mu and data; the same data list refilled in place; the same inputs with other bounds), fitted POI above and below the threshold: statistic = [one-sided zeroing of this statistic](max(0, 2NLL(tested mu, conditional fit) - 2NLL(free fit))) from THIS call's two fits, which receive this call's data, model, start values, bounds and fixed flags; q0 tests 0 whatever mu it is handed; the fitted parameters returned are this call's", "E2E", floor=5)
     _end_to_end(ctx, r7, repo)
     # ---- R3 / R6 two-sided helper
     r3 = ctx.rule("C06.R3", "ALG: the two-sided helper returns clip(2NLL(fixed-POI fit at mu) - 2NLL(free fit), 0, None); the fits receive (mu,) data, pdf, init, bounds, fixed in the order of the mle signatures and ask for the objective value", "ALG", floor=4)
@@ -250,8 +254,8 @@ def run(ctx):
 
 def _end_to_end(ctx, rid, repo):
     """Every public statistic interpreted END TO END (all functions of test_statistics.py are walked, whatever helpers they
-    are split into) with recording fits, three calls in ONE process: (mu_1, data_1), (mu_2, data_2), and data_2's list
-    object again after it was refilled in place.  Each result must be the case definition evaluated on THIS call's fits."""
+    are split into) with recording fits, four calls in ONE process: (mu_1, data_1), (mu_2, data_2), data_2's list object
+    again after it was refilled in place, and that call once more with other bounds only.  Each result must be the case definition evaluated on THIS call's fits."""
     from ..alg import RaisedInFragment
     from ..objmodel import World
     at, c = Poly.atom, Poly.const
@@ -269,19 +273,21 @@ def _end_to_end(ctx, rid, repo):
         lower = Fraction(-5) if name in ("qmu", "tmu") else Fraction(0)
         # (mu representative, fitted POI representative) per call: above / below / above the threshold that matters
         thr = (lambda mu: Fraction(0)) if forces_zero else (lambda mu: mu)
-        plan = [("first call", Fraction(1), Fraction(3)), ("second call, other mu and data", Fraction(2), Fraction(1, 2)), ("third call, the second call's data list refilled in place", Fraction(2), Fraction(-1, 4) if forces_zero else Fraction(7, 2))]
+        plan = [("first call", Fraction(1), Fraction(3)), ("second call, other mu and data", Fraction(2), Fraction(1, 2)), ("third call, the second call's data list refilled in place", Fraction(2), Fraction(-1, 4) if forces_zero else Fraction(7, 2)),
+                ("fourth call, everything as in the third except the bounds", Fraction(2), Fraction(1) if not forces_zero else Fraction(-1, 3))]
         if forces_zero:
             plan = [(l_, Fraction(0), mh) for l_, _, mh in plan]
             plan[1] = (plan[1][0], Fraction(0), Fraction(-1, 2))
             plan[2] = (plan[2][0], Fraction(0), Fraction(1, 4))
         rec = []
         region = {}
+        the_tensorlib = Obj("tensorlib", {"name": "numpy", "precision": "64b"})
 
         def fit(a, k):
             kk = dict(k)
             for nm, v in zip(("data", "pdf", "init_pars", "par_bounds", "fixed_params"), a):
                 kk[nm] = v
-            t_ = tag(kk.get("data"))
+            t_ = tag(kk.get("data")) + "|" + ",".join(str(to_poly(x)) for b_ in (kk.get("par_bounds") or []) for x in b_)
             rec.append(("fit", kk, t_))
             pars = [at(f"MUHAT<{t_}>"), at(f"NUIS_FREE<{t_}>")]
             return (pars, at(f"NLL2_FREE<{t_}>")) if kk.get("return_fitted_val") is True else pars
@@ -290,38 +296,47 @@ def _end_to_end(ctx, rid, repo):
             kk = dict(k)
             for nm, v in zip(("poi_val", "data", "pdf", "init_pars", "par_bounds", "fixed_params"), a):
                 kk[nm] = v
-            t_ = f"{to_poly(kk.get('poi_val'))};{tag(kk.get('data'))}"
+            t_ = f"{to_poly(kk.get('poi_val'))};{tag(kk.get('data'))}" + "|" + ",".join(str(to_poly(x)) for b_ in (kk.get("par_bounds") or []) for x in b_)
             rec.append(("fixed_poi_fit", kk, t_))
             pars = [to_poly(kk.get("poi_val")), at(f"NUIS_FIXED<{t_}>")]
             return (pars, at(f"NLL2_FIXED<{t_}>")) if kk.get("return_fitted_val") is True else pars
 
         try:
-            w = World({"__strict__": True, "fit": fit, "fixed_poi_fit": fixed_poi_fit, "get_backend": lambda a, k: (Obj("tensorlib"), None)}, region=region,
+            w = World({"__strict__": True, "fit": fit, "fixed_poi_fit": fixed_poi_fit, "get_backend": lambda a, k: (the_tensorlib, None)}, region=region,
                       module_env={"log": Obj("log"), "exceptions": Obj("exceptions")})
             for q, g in mod.funcs.items():
                 if "." not in q and q != "__dir__":
                     w.add_func(g)
             pdf = Obj("pdf", {"config": Obj("config", {"poi_index": c(0)})})
             region.update({"LB": lower, "UB": Fraction(10), "NLB": Fraction(-5), "NUB": Fraction(5)})
-            bounds = [(at("LB"), at("UB")), (at("NLB"), at("NUB"))]
+            region.update({"LB4": lower - 5, "UB4": Fraction(20)})
+            bounds_a = [(at("LB"), at("UB")), (at("NLB"), at("NUB"))]
+            bounds_b = [(at("LB4"), at("UB4")), (at("NLB"), at("NUB"))]
             data1, data2 = [at("d1_0"), at("d1_1")], [at("d2_0"), at("d2_1")]
             problems = []
             for i_, (lab, mu_rep, muhat_rep) in enumerate(plan):
                 if i_ == 2:
                     data2[:] = [at("d3_0"), at("d3_1")]
                 data = data1 if i_ == 0 else data2
-                t_ = tag(data)
+                bounds = bounds_b if i_ == 3 else bounds_a
+                btag = ",".join(str(to_poly(x)) for b_ in bounds for x in b_)
+                t_ = tag(data) + "|" + btag
                 mu = at(f"mu_{i_}") if not forces_zero else c(0)
                 mu_given = mu if not forces_zero else (c(0) if i_ != 1 else at("mu_nonzero"))  # q0 must test 0 whatever it is handed
-                region[f"mu_{i_}"] = mu_rep
+                mu_name = "mu_2" if i_ == 3 else f"mu_{i_}"
+                if not forces_zero:
+                    mu = at(mu_name)
+                    mu_given = mu
+                region[mu_name] = mu_rep
                 region["mu_nonzero"] = Fraction(3)
                 region[f"MUHAT<{t_}>"] = muhat_rep
-                init, fixed = Obj(f"init_{i_}"), Obj(f"fixed_{i_}")
+                # start values and fixed flags are plain lists; calls three and four pass EQUAL (not identical) ones
+                init, fixed = [at("i0"), at("i1")] if i_ >= 2 else [at(f"i0_{i_}"), at(f"i1_{i_}")], [False, False]
                 n0 = len(rec)
                 out = w.call_func(f, [mu_given, data, pdf, init, bounds, fixed], {"return_fitted_pars": True})
                 mine = rec[n0:]
                 stat = to_poly(out[0]) if isinstance(out, (tuple, list)) and len(out) == 2 else None
-                fx = f"{to_poly(mu)};{t_}"
+                fx = f"{to_poly(mu)};{tag(data)}|{btag}"
                 T = fn("clip", at(f"NLL2_FIXED<{fx}>") - at(f"NLL2_FREE<{t_}>"), c(0), at("NONE"))
                 if one_sided is True:
                     want = Poly() if muhat_rep > mu_rep else T
@@ -350,7 +365,7 @@ def _end_to_end(ctx, rid, repo):
             if problems:
                 ctx.violated(rid, f, f"{name} end to end", f"{name} does not obey its case definition on every call: {problems[0]}" + (f" (+{len(problems) - 1} more)" if len(problems) > 1 else ""), expected="max(0, 2NLL(tested mu, conditional fit) - 2NLL(free fit)) with the one-sided rule of this statistic, from this call's fits", found=problems[0])
             else:
-                ctx.holds(rid, f"{TS}::{name} [end to end, 3 calls in one process]", "case definition on this call's fits; fits get this call's inputs; fitted parameters returned are this call's")
+                ctx.holds(rid, f"{TS}::{name} [end to end, 4 calls in one process]", "case definition on this call's fits; fits get this call's inputs; fitted parameters returned are this call's")
         except RaisedInFragment as e:
             ctx.violated(rid, f, f"{name} end to end", f"{name} raises {e.exc_name} on a model with a POI and bounds {lower}..10")
         except errs as e:
